@@ -3,7 +3,7 @@
  *
  *   heap_replay hbseq   <histories.txt> <trace.ndjson> <size> <prio1,prio2,..>
  *       histories: "push_all <d> <i,j,..>;push_prio <d> <i,j,..>;pop"       (validated by HBTrace.tla)
- *   heap_replay heapseq <histories.txt> <trace.ndjson> <prio1,prio2,..>
+ *   heap_replay heapseq <histories.txt> <trace.ndjson> <prio1,prio2,..> [maxheaps]
  *       histories: "ins <h> <x>;rem <h>;split <h>"                            (validated by HeapTrace.tla)
  *   heap_replay explore|random|stress <scenario> <limit|runs> <trace.ndjson> <meta.ndjson> [seed]
  *       concurrent hbbuffer histories (validated by HBConcTrace.tla); scenario file:
@@ -168,19 +168,20 @@ static void log_heaps(FILE *out, const char *op, int h, int x, int ret, int newh
     }
     fprintf(out, "]}\n");
 }
+static int maxheaps = MAXH;
 static int run_heapseq(const char *hpath, const char *tpath)
 {
     FILE *in = fopen(hpath, "r"), *out = fopen(tpath, "w");
     char *line = NULL; size_t cap = 0; long nexec = 0;
     if( !in || !out ) die("cannot open files");
     while( getline(&line, &cap, in) > 0 ) {
-        char *save = NULL, *tok; int nh = 1, k;
+        char *save = NULL, *tok; int k;
         if( nexec++ ) fprintf(out, "{\"e\":\"Reset\"}\n");
         mk_tasks(); memset(in_use, 0, sizeof(in_use)); memset(heaps, 0, sizeof(heaps));
         for( tok = strtok_r(line, ";\n", &save); tok; tok = strtok_r(NULL, ";\n", &save) ) {
             char op[16]; int h = 0, x = 0;
             if( sscanf(tok, "%15s %d %d", op, &h, &x) < 2 ) continue;
-            if( h < 1 || h > MAXH ) continue;
+            if( h < 1 || h > maxheaps ) continue;
             if( !strcmp(op, "ins") ) {
                 if( in_use[x] ) continue;                      /* not free in the real run: skip */
                 if( NULL == heaps[h] ) heaps[h] = heap_create();
@@ -194,11 +195,15 @@ static int run_heapseq(const char *hpath, const char *tpath)
                 if( t ) in_use[idof(t)] = 0;
                 log_heaps(out, "rem", h, 0, idof(t), 0);
             } else if( !strcmp(op, "split") ) {
-                parsec_task_t *t; parsec_heap_t *nw = NULL; int newh = 0;
+                parsec_task_t *t; parsec_heap_t *nw = NULL; int newh = 0, fr = 0;
                 if( NULL == heaps[h] ) continue;
+                /* the new heap gets the smallest unused handle (the model's numbering may differ: it does not know
+                 * which operations were skipped); without a free handle a splitting split is skipped */
+                for( k = 1; k <= maxheaps; k++ ) if( NULL == heaps[k] ) { fr = k; break; }
+                if( 0 == fr && heaps[h]->size >= 3 ) continue;
                 t = heap_split_and_steal(&heaps[h], &nw);
                 if( t ) in_use[idof(t)] = 0;
-                if( NULL != nw ) { if( nh >= MAXH ) die("too many heaps"); newh = ++nh; heaps[newh] = nw; }
+                if( NULL != nw ) { if( 0 == fr ) die("unexpected new heap"); newh = fr; heaps[newh] = nw; }
                 log_heaps(out, "split", h, 0, idof(t), newh);
             }
         }
@@ -330,7 +335,12 @@ static void *stress_thread(void *p) { body((int)(intptr_t)p, NULL); return NULL;
 int main(int argc, char **argv)
 {
     if( argc >= 6 && !strcmp(argv[1], "hbseq") ) { hbsize = atoi(argv[4]); parse_prios(argv[5]); return run_hbseq(argv[2], argv[3]); }
-    if( argc >= 5 && !strcmp(argv[1], "heapseq") ) { parse_prios(argv[4]); return run_heapseq(argv[2], argv[3]); }
+    if( argc >= 5 && !strcmp(argv[1], "heapseq") ) {
+        parse_prios(argv[4]);
+        if( argc >= 6 ) maxheaps = atoi(argv[5]);
+        if( maxheaps < 1 || maxheaps > MAXH ) die("bad number of heaps");
+        return run_heapseq(argv[2], argv[3]);
+    }
     if( argc < 6 ) die("usage");
     parse_scenario(argv[2]);
     vt_init(1 << 14);
